@@ -60,6 +60,19 @@ theorem rel_offset_from_end (t addr size zs ze : Int) (w : Nat) (h1 : zs ≤ t) 
   simp only [ValSrc.Satisfies, ValSrc.emitted, leOpt, geOpt, relBase, and_true]
   exact ⟨⟨h1, h2⟩, by simp⟩
 
+/-- the configured limits of a relative-address operand are tested on the very value the field encodes - the
+    distance from the instruction's first byte, or from its last byte when so configured - not on another one -/
+theorem rel_limits_on_encoded_value (t addr size zs ze lo hi : Int) (w : Nat) (fromEnd : Bool) (v : Int) :
+    (ValSrc.rel t fromEnd (some lo) (some hi) zs ze).resolve addr size w = .ok v ↔
+      (zs ≤ t ∧ t ≤ ze ∧ lo ≤ v ∧ v ≤ hi ∧ v = t - (if fromEnd then addr + size - 1 else addr)) := by
+  rw [ValSrc.resolve_ok_iff']
+  simp only [ValSrc.Satisfies, ValSrc.emitted, leOpt, geOpt, relBase]
+  constructor
+  · rintro ⟨⟨h1, h2, h3, h4⟩, rfl⟩; exact ⟨h1, h2, h4, h3, rfl⟩
+  · rintro ⟨h1, h2, h3, h4, rfl⟩; exact ⟨⟨h1, h2, h4, h3⟩, rfl⟩
+example : (ValSrc.rel 128 true (some (-128)) (some 127) 0 65535).resolve 0 2 8 = .ok 127 := by decide
+example : (ValSrc.rel 48 true (some (-16)) (some 127) 0 65535).resolve 64 2 8 ≠ .ok (-17) := by decide
+
 /-- sliced address: accepted iff in zone and sharing the high-order bits with the instruction's own
     address; the low `w` bits are emitted and always fit the field -/
 theorem sliced_accept_iff (v zs ze addr size : Int) (w : Nat) :
